@@ -1050,7 +1050,8 @@ def _low_rank_root(
   assert compression_rank != 0
   assert matrix.shape[0] == matrix.shape[1]
   matrix_size = matrix.shape[0]
-  assert matrix_size > abs(compression_rank) + 2
+  assert matrix_size > abs(compression_rank) + 2, (
+      "all layers are too small for compression_rank")
   orig_dtype = matrix.dtype
   matrix = matrix.astype(_MAT_INV_PTH_ROOT_DTYPE)
   alpha = jnp.asarray(-1.0 / p, _MAT_INV_PTH_ROOT_DTYPE)
